@@ -1,7 +1,7 @@
 (* floor / round-half-even on Q, with the lemmas the quantizer and backend proofs need *)
 From Coq Require Import QArith Qround ZArith Lia Lqa Bool.
 Require Import Plinio.Base.Qx.
-Open Scope Q_scope.
+Local Open Scope Q_scope.
 
 Definition frac (q : Q) : Q := q - inject_Z (Qfloor q).
 
